@@ -4,3 +4,4 @@ import Sge.Core.Run
 import Sge.Ovm
 import Sge.Subaccount
 import Sge.Reward
+import Sge.Ticket
